@@ -78,6 +78,16 @@ CLAIMED.update({
    note="The unpadded text of non-integer, non-string values is taken from the implementation's own format(\"{}\", v) (the statement does not define it). Radix formats of negative/non-integer values and non-ASCII text in padded specifiers are unspecified.",
    technique="exhaustive enumeration of format strings over a bounded grammar against a reference renderer"),
 })
+CLAIMED.update({
+ "C15": dict(level="model_checking", design="4.15",
+   text="For each of ~1000 structured frames (5 link chains x IPv4 with every IHL 0..15 / IPv6 / none x UDP / other / TCP with every data offset / IPv6-in-IPv4, position-pattern bytes) truncated at every byte offset (quick: every offset of a core set, every 4th offset of the rest), an explicit-state breadth-first search over the read-access alphabet ($0..$11 and 12 properties applied to every cached layer object) runs to a fixpoint over the lazily filled layer caches (canonical state = chain of cached layer kinds; each transition replays the history on a fresh packet obtained through the real pcap parser); in every reachable state the one serialisation routine used by pcap_write, write and filter-mode output must return the record header plus exactly the captured bytes.",
+   note="Canonical state soundness: serialisation and later reads depend only on the immutable captured bytes and the cache chain. Frames with more than two VLAN tags or other tunnels are not covered.",
+   technique="explicit-state BFS to a fixpoint over cache states per frame x truncation point, invariant checked in every state"),
+ "C16": dict(level="model_checking", design="4.16",
+   text="Exhaustive field decoding against an RFC bit-layout table: 41 header fields x 3 backgrounds x every value of fields <= 8 bits (thorough <= 16 bits) and boundary/walking-bit values of wider ones, with every other field of the same header re-read each time; payload of every layer for every header length; layer dispatch for all 65536 EtherTypes (Ethernet and VLAN level) and all 256 IPv4 protocols / IPv6 next headers through $n and the matching named property, at full length and truncated inside the selected layer; pcap global- and record-header fields. Frames reach the code through real pcap files and the real parser.",
+   note="Trusts the layout table in mc/src/pkt.rs (TCP flags = 8 control bits). Named access contradicting the selector, $11, header lengths < 5 and 802.1ad/QinQ EtherTypes are unspecified.",
+   technique="exhaustive enumeration of field values and dispatch selectors against a layout table"),
+})
 NOT_YET = "check not built yet in this round (machinery under construction; see DESIGN.md section 4 for the planned check)"
 
 props = [json.loads(l) for l in open(os.path.join(HERE, "properties.jsonl"))]
